@@ -152,6 +152,18 @@ CLAIMS = {
              "address_waiter (rw_mutex, mutex), the arena's worker wake-up and thread_request_serializer are not modelled; they are exercised by real-thread runs (monitor stress, enqueue into an arena "
              "nobody waits in, blocked bounded-queue operations under C09, late resume in a worker-less arena under C20). Liveness is stated as 'no waiter is blocked once notifiers are done'; fairness of the OS scheduler is assumed.",
         ref="4/C02"),
+    "C01": dict(
+        technique="Coq: access-level small-step model of the arena_slot deque; exhaustive exploration of finite configurations INSIDE Coq with a proved soundness lemma (a checked closed set contains every "
+                  "reachable configuration); access-by-access differential tie against the real arena_slot under the gate; real-thread exactly-once oracles on the scheduler",
+        text="The model reproduces every atomic access (kind, memory order, values, CAS outcome) of spawn / get_task / steal_task on head, tail and the task_pool lock word; the real arena_slot (arena_slot.cpp "
+             "compiled under the atomic prelude) is run under seeded interleavings and compared event by event. Proved for five configurations (owner and thief racing for the last task, two and three tasks, "
+             "reset and re-publication of the pool, two thieves contending for the lock), for ALL their interleavings: no task is handed out twice, only spawned tasks are handed out, and at quiescence every "
+             "spawned task was handed out exactly once or is still in [head, tail). Real scheduler, 1-32 threads: task_group trees, arena enqueue/execute, affinity replay, isolation, cancellation, nested "
+             "groups from external threads, task_handle: every unit exactly once (cancelled: at most once), waits cover transitive work.",
+        note="PARTIAL: the exactly-once theorem is exhaustive per configuration, not for arbitrary scripts / thief counts (no general inductive proof). task_proxy/mailbox arbitration, task_stream, the "
+             "reference-counting wait tree, isolation, critical tasks and pool relocation are not modelled (real-thread oracles only). 'The waiter sees all writes' is checked by reading counters after the wait, "
+             "not proved (memory model not formalised).",
+        ref="4/C01"),
     "C20": dict(
         technique="Coq proof: exact characterisation of the reachable configurations of the suspend/resume handshake (inductive invariant, all interleavings); real suspend/resume runs with racing resumers under an exactly-once oracle",
         text="For every interleaving of the suspending thread's exchange(suspended)/self-resume with a resume() from anywhere (incl. the suspend callback itself): at most one resume task is pushed, "
